@@ -60,6 +60,10 @@ class C06(Harness):
             for hsub in (['x'], ['x', 'y'], ['n:bounds']):
                 out.append({'shape': 'chain2', 'm': [r, None], 'h': [['y'], hsub], 'L': L})
                 out.append({'shape': 'chain3', 'm': [r, None, None], 'h': [['y'], None, hsub], 'L': L})
+        # an on_init method whose body assigns a parameter that another watching method (declared later, or in a subclass) depends on
+        for where in ('same', 'sub'):
+            for dep2 in (['y'], ['x', 'y']):
+                out.append({'shape': 'oninit_assign', 'where': where, 'dep2': dep2, 'm': [['on_init', ['x']]], 'L': 1})
         # function form with Parameter-object dependencies
         for s in (('x',), ('x', 'y')):
             out.append({'shape': 'function', 'm': [['watch', list(s)]], 'L': L})
@@ -155,7 +159,7 @@ class C06(Harness):
         return True, mode == 'on_init', deps, mlvl
 
     OPS = [['set', 'x', 1], ['set', 'x', 0], ['set', 'y', 1], ['update', [['x', 2], ['y', 2]]], ['update', [['x', 0]]], ['batch', [['x', 3], ['y', 3]]],
-           ['bounds', 1], ['bounds', 0], ['batchmix', None], ['batchupd', None], ['batchslot', None]]
+           ['bounds', 1], ['bounds', 0], ['batchmix', None], ['batchupd', None], ['batchraise', None], ['batchslot', None]]
 
     def apply(self, param, obj, op, st):
         k = op[0]
@@ -178,6 +182,14 @@ class C06(Harness):
                 obj.param.update(x=9)
                 obj.y = 9
                 obj.x = 10
+        elif k == 'batchraise':
+            try:
+                with param.parameterized.batch_call_watchers(obj):
+                    obj.x = 11
+                    obj.y = 11
+                    raise KeyError('body')
+            except KeyError:
+                pass
         elif k == 'batchslot':
             with param.parameterized.batch_call_watchers(obj):
                 obj.x = 8
@@ -209,6 +221,9 @@ class C06(Harness):
             setv('x', 9)
             setv('y', 9)
             setv('x', 10)
+        elif k == 'batchraise':
+            setv('x', 11)
+            setv('y', 11)
         elif k == 'batchslot':
             setv('x', 8)
             if st['bounds'] != (2, 8):
@@ -216,7 +231,43 @@ class C06(Harness):
             st['bounds'] = (2, 8)
         return ch
 
+    def run_oninit_assign(self, cfg):
+        import param
+        reset_globals()
+        log = []
+
+        def m(self):
+            log.append('m')
+            self.y = 5
+        m = param.depends('x', watch=True, on_init=True)(m)
+
+        def m2(self):
+            log.append('m2')
+        m2 = param.depends(*cfg['dep2'], watch=True)(m2)
+        ns = {'x': param.Parameter(default=0), 'y': param.Parameter(default=0), 'm': m}
+        if cfg['where'] == 'same':
+            ns['m2'] = m2
+            K = type('Base', (param.Parameterized,), ns)
+        else:
+            Base = type('Base', (param.Parameterized,), ns)
+            K = type('A', (Base,), {'m2': m2})
+        vs = []
+        key = dict(shape='oninit_assign', where=cfg['where'], dep2='+'.join(cfg['dep2']))
+        obj = K()
+        if log.count('m') != 1 or log.count('m2') != 1:
+            vs.append(V('on-init-cascade', 'construction: m (on_init, assigns y) ran %d times, m2 (depends on %s) ran %d times; expected 1 and 1 (log %r)' % (
+                log.count('m'), cfg['dep2'], log.count('m2'), log), **key))
+        else:
+            del log[:]
+            obj.x = 3          # m runs (y is already 5: unchanged), m2 only if it depends on x
+            exp2 = 1 if 'x' in cfg['dep2'] else 0
+            if log.count('m') != 1 or log.count('m2') != exp2:
+                vs.append(V('call-count', 'after x=3: m ran %d times, m2 ran %d times; expected 1 and %d' % (log.count('m'), log.count('m2'), exp2), **key))
+        return Result(vs, outcome='oninit_assign', hits={'programs': 1}, nontrivial=True)
+
     def run_case(self, cfg):
+        if cfg['shape'] == 'oninit_assign':
+            return self.run_oninit_assign(cfg)
         import param
         reset_globals()
         log = []
